@@ -51,6 +51,13 @@ RecOK(r) ==
                 LET e == r.infer[i]
                     d == IF e[1] = "m" THEN r.m ELSE r.f
                 IN InferOK(d, e[2], <<e[3], e[4]>>)
+      [] r.k = "fp" ->
+           \* library iterator: first element of a, t(a), t(t(a)).. that t maps to itself; the
+           \* transformer is logged as the table of the entries it was asked for
+           LET D == {r.table[i][1] : i \in DOMAIN r.table}
+               t == [n \in D |-> r.table[CHOOSE i \in DOMAIN r.table : r.table[i][1] = n][2]]
+           IN /\ r.a \in D
+              /\ FpIter(r.a, t, Len(r.table) + 1, 0) = <<r.res, r.calls, TRUE>>
       [] r.k = "retain" ->
            /\ WF(r.f)
            /\ RetainOK(r.f, r.flt, r.r)
